@@ -578,6 +578,41 @@ def check_finalise_unregisters(P, ctx, rule):
     ctx.floor(rule, 2)
 
 
+def check_del_routes(P, ctx, rule='C06.del-routes'):
+    """del_by: a standard or root object is released through the collector (rem(current(GC), self) strikes its registry entry and
+    finalises it) on every path, never directly — a direct release leaves the entry registered and the next sweep or the teardown
+    finalises the object again; a raw object is released directly.  Decided per allocation method over the feasible paths."""
+    fn = P.fn('del_by')
+    g = P.cfg(fn)
+    ctx.fn(fn)
+    N = util.Norm(P, fn, expand_locals=True, inline=False)
+    for name in ('ALLOC_STANDARD', 'ALLOC_ROOT', 'ALLOC_RAW'):
+        env = {('enum', k): v for k, v in P.enums.items()}
+        env[('param', 1)] = P.enums.get(name)
+        bad = None
+        npaths = 0
+        for path in util.paths_under(g, N, env, P.enums):
+            if util.path_end(path)[0] not in ('ret', 'fall'):
+                continue
+            npaths += 1
+            rems = direct = 0
+            for ev in util.path_events(path):
+                if ev['t'] == 'call' and ev['name'] == 'rem' and ev['args'] and ir.top_nocast(ev['args'][0])[0] == 'call' and ir.callee_name(ir.top_nocast(ev['args'][0])) == 'current' \
+                        and N.canon(ev['args'][1]) == ('param', 0):
+                    rems += 1
+                if ev['t'] == 'call' and ev['name'] in ('dealloc', 'destruct') and ev['args'] and any(x == ('param', 0) for x in ir.walk(N.canon(ev['args'][0]))):
+                    direct = 1
+            want = (1, 0) if name != 'ALLOC_RAW' else (0, 1)
+            if (rems, direct) != want:
+                bad = bad or ('a path for %s %s (%s)' % (name, 'releases the object directly' if direct and name != 'ALLOC_RAW' else
+                                                         ('does not go through the collector' if name != 'ALLOC_RAW' else 'goes through the collector or does not release'),
+                                                         util.describe_path(g, path, 12)))
+        ctx.check(bad is None and npaths > 0, rule, 'del_by:' + name, site(fn),
+                  '%s objects are released %s on every path' % (name, 'through rem(current(GC), self) only' if name != 'ALLOC_RAW' else 'directly (dealloc(destruct(self)))'),
+                  [bad] if bad else None)
+    ctx.floor(rule, 3)
+
+
 def run(ctx, load):
     P = load(UNITS, 'default', WITNESS)
     ctx.stats['units'] = set(UNITS) | {'witness/main_wrapper.c', 'include/Cello.h'}
@@ -589,6 +624,17 @@ def run(ctx, load):
     check_box(P, ctx)
     check_registered_before_use(P, ctx)
     check_finalise_unregisters(P, ctx, 'C06.finalise-unregisters')
+    check_del_routes(P, ctx)
+    # every standard / root allocation is registered (an object that is never registered is never finalised)
+    from .rules_c01 import check_root_flag
+    before = len(ctx.obs)
+    check_root_flag(P, ctx)
+    for o in ctx.obs[before:]:
+        o['rule'] = 'C06.every-managed-object-registered'
+    for k in list(ctx.floors):
+        if k[0].startswith('C01.'):
+            ctx.floors.pop(k)
+    ctx.floor('C06.every-managed-object-registered', 4)
     # a stale mark makes the teardown sweep (which does not mark) skip the object: marks must be cleared after every sweep
     from .rules_c01 import check_marks_cleared
     check_marks_cleared(P, ctx, 'C06.teardown-sees-unmarked')
